@@ -68,6 +68,8 @@ def strategy(tier):
   transport = st.fixed_dictionaries({
       'kind': st.just('transport'),
       'proto': st.sampled_from(['thriftmux', 'thriftmux', 'kafka']),
+      # None: the real bound (2^24-1); else a small one, so that histories reach the end of the tag space
+      'pool_max': st.sampled_from([None, None, None, 5, 8]),
       'ops': sized_list(weighted(*pairs), 0, 70 if tier == 'quick' else 200),
   })
   pool = st.fixed_dictionaries({
@@ -194,6 +196,10 @@ class Run(object):
     advance(0.02)
     if not ar.ready() or ar.exception or self.transport.state != ChannelState.Open:
       self.fail('open-failed', 'transport did not open')
+    if self.plan.get('pool_max') and not early:
+      # a connection whose tag space is nearly used up, scaled down: the same TagPool class with a small bound
+      # (the transport creates its pool when it opens)
+      self.transport._tag_pool = TagPool(self.plan['pool_max'], 'svc', 'h:1')
     self.sock = [s for s in self.net.sockets if s.connected and not s.closed][-1]
 
   def gate(self, sock, buf):
@@ -234,6 +240,8 @@ class Run(object):
         r = x
     if r is None:
       raise HarnessError('unknown request %r' % rid_text)
+    if getattr(r, 'refused', False) or (r.completions and r.tag is None):
+      self.fail('refused-request-written', 'request %d was refused (no tag left) but written with tag %d' % (r.id, tag))
     if r.tag != tag:
       self.fail('tag-changed', 'request %d was assigned tag %r but written with %d' % (r.id, r.tag, tag))
     if r.timed_out and r.dropped_expected:
@@ -304,6 +312,12 @@ class Run(object):
     try:
       self.sink.AsyncProcessRequest(st_, msg, None, {})
     except Exception as e:
+      if self.plan.get('pool_max') and 'No tags left' in str(e):
+        # every tag is out: the call is refused; nothing of it may reach the peer (least of all under a reserved tag)
+        self.flags.add('tag_pool_exhausted')
+        r.refused = True
+        r.freed = True
+        return
       self.fail('request-raised', 'request %d raised %r' % (r.id, e))
     r.tag = msg.properties.get(Tag.KEY)
     if r.completions:
